@@ -221,6 +221,71 @@ else:
     defs.append("(* UNTIED g_helper_deser_guarded *)\nDefinition g_helper_deser_guarded : bool := true.")
     sites.append({'name': 'g_helper_deser_guarded', 'file': 'consensus/helper.rs', 'fn': 'run', 'line': 0, 'rust': None, 'coq': 'true', 'untied': 'site not found'})
 
+
+# ---- digest pre-images: the sequence of hasher.update(..) calls of each `impl Hash for T` in messages.rs ----
+def hash_updates(ty):
+    m = re.search(r'impl\s+Hash\s+for\s+%s\s*\{' % ty, msgs)
+    if not m: return None, 0
+    i = m.end() - 1; depth = 0; j = i
+    while j < len(msgs):
+        if msgs[j] == '{': depth += 1
+        elif msgs[j] == '}':
+            depth -= 1
+            if depth == 0: break
+        j += 1
+    body = msgs[i:j]
+    line = msgs[:i].count('\n') + 1
+    toks = []
+    # a `for x in &self.F { hasher.update(x); }` loop contributes the field F "each"
+    pos = 0
+    for mm in re.finditer(r'for\s+(\w+)\s+in\s+&self\.(\w+)\s*\{\s*hasher\.update\(\s*\1\s*\)\s*;\s*\}|hasher\.update\(\s*([^;]*?)\s*\)\s*;', body):
+        if mm.group(2): toks.append('each:' + mm.group(2))
+        else: toks.append(re.sub(r'\s+', '', mm.group(3)))
+    return toks, line
+FIELD = {'self.author.0': 'author', 'self.round.to_le_bytes()': 'round_le', 'each:payload': 'payload', '&self.qc.hash': 'parent',
+         '&self.hash': 'hash', 'self.high_qc.round.to_le_bytes()': 'hqr_le'}
+def pre_site(name, ty, params, default_order):
+    toks, line = hash_updates(ty)
+    try:
+        if toks is None: raise ValueError('impl Hash not found')
+        names = []
+        for t in toks:
+            if t not in FIELD: raise ValueError('unrecognised update argument `%s`' % t)
+            names.append(FIELD[t])
+        g = '(' + ' ++ '.join(names) + ')' if names else '[]'
+        defs.append("(* messages.rs: impl Hash for %s (line %d): updates %s *)\nDefinition %s %s : list N := %s." % (ty, line, toks, name, params, g))
+        sites.append({'name': name, 'file': 'messages.rs', 'fn': 'Hash for %s' % ty, 'line': line, 'rust': ' ; '.join(toks), 'coq': g, 'changed': names != default_order})
+    except Exception as e:
+        untied.append((name, str(e)))
+        g = '(' + ' ++ '.join(default_order) + ')'
+        defs.append("(* UNTIED %s: %s *)\nDefinition %s %s : list N := %s." % (name, e, name, params, g))
+        sites.append({'name': name, 'file': 'messages.rs', 'fn': 'Hash for %s' % ty, 'line': line, 'rust': str(toks), 'coq': g, 'untied': str(e)})
+pre_site('g_pre_block', 'Block', '(author round_le payload parent : list N)', ['author', 'round_le', 'payload', 'parent'])
+pre_site('g_pre_vote', 'Vote', '(hash round_le : list N)', ['hash', 'round_le'])
+pre_site('g_pre_qc', 'QC', '(hash round_le : list N)', ['hash', 'round_le'])
+pre_site('g_pre_timeout', 'Timeout', '(round_le hqr_le : list N)', ['round_le', 'hqr_le'])
+# the TC entry digest is computed inline in TC::verify
+_tb, _tl = fn_body(impl_body(msgs, 'TC')[0] or '', 'verify')
+_tu = [re.sub(r'\s+', '', x) for x in re.findall(r'hasher\.update\(\s*([^;]*?)\s*\)\s*;', _tb or '')]
+_TF = {'self.round.to_le_bytes()': 'round_le', 'high_qc_round.to_le_bytes()': 'hqr_le'}
+try:
+    names = [_TF[t] for t in _tu]
+    g = '(' + ' ++ '.join(names) + ')'
+    defs.append("(* messages.rs: impl TC, fn verify: entry digest updates %s *)\nDefinition g_pre_tc_entry (round_le hqr_le : list N) : list N := %s." % (_tu, g))
+    sites.append({'name': 'g_pre_tc_entry', 'file': 'messages.rs', 'fn': 'TC::verify', 'line': _tl, 'rust': ' ; '.join(_tu), 'coq': g, 'changed': names != ['round_le', 'hqr_le']})
+except Exception as e:
+    untied.append(('g_pre_tc_entry', 'unrecognised update argument %s' % e))
+    defs.append("(* UNTIED g_pre_tc_entry *)\nDefinition g_pre_tc_entry (round_le hqr_le : list N) : list N := (round_le ++ hqr_le).")
+    sites.append({'name': 'g_pre_tc_entry', 'file': 'messages.rs', 'fn': 'TC::verify', 'line': _tl, 'rust': str(_tu), 'coq': '(round_le ++ hqr_le)', 'untied': str(e)})
+
+
+# ---- mempool synchronizer: garbage-collection and retry tests ----
+msync_src = strip_comments(open(REPO + '/mempool/src/synchronizer.rs').read())
+isite('g_ms_gc_skip', '(round gc_depth : N) : bool', msync_src, 'mempool/synchronizer.rs', 'Synchronizer', 'run', r'if\s+(self\.round[^{}]*?self\.gc_depth[^{}]*?)\s*\{\s*continue', {'self.round': 'round', 'self.gc_depth': 'gc_depth'}, '(round <? gc_depth)')
+isite('g_ms_gc_round', '(round gc_depth : N) : N', msync_src, 'mempool/synchronizer.rs', 'Synchronizer', 'run', r'let\s+mut\s+gc_round\s*=\s*([^;]*?);', {'self.round': 'round', 'self.gc_depth': 'gc_depth'}, '(round - gc_depth)')
+isite('g_ms_gc_keep', '(r gc_round : N) : bool', msync_src, 'mempool/synchronizer.rs', 'Synchronizer', 'run', r'self\.pending\.retain\(\s*\|[^|]*\|\s*([^)]*?)\s*\)', {'r': 'r', 'gc_round': 'gc_round'}, '(gc_round <? r)', pre=lambda t: t.replace('&mut ', ''))
+isite('g_ms_retry_due', '(timestamp delay now : N) : bool', msync_src, 'mempool/synchronizer.rs', 'Synchronizer', 'run', r'if\s+(timestamp[^{}]*?)\s*\{', {'timestamp': 'timestamp', 'DELAY': 'delay', 'now': 'now'}, '((timestamp + delay) <? now)', pre=lambda t: t.replace('(self.sync_retry_delay as u128)', 'DELAY').replace('self.sync_retry_delay as u128', 'DELAY'))
+
 # ---- commit(): the deque discipline, read off the source (which end each push/pop uses, whether the head is
 # pushed before or after the walk, and the optional stop test inside the walk) ----
 def flag(name, fn, pattern, mapping, default, what):
@@ -258,7 +323,7 @@ else:
     sites.append({'name': 'g_commit_stop', 'file': 'core.rs', 'fn': 'commit', 'line': _l, 'rust': '(no break in the walk)', 'coq': 'false', 'changed': True})
 site('g_quorum_consensus_u32','(total : N) : N',cfg,'consensus/config.rs','quorum_threshold',r';\s*([^;]*?)\s*$',{'total_votes':'total'},default='(u32 ((u32 ((u32 (2 * total)) / 3)) + 1))',wrap='u32')
 site('g_quorum_mempool_u32','(total : N) : N',mcfg,'mempool/config.rs','quorum_threshold',r';\s*([^;]*?)\s*$',{'total_votes':'total'},default='(u32 ((u32 ((u32 (2 * total)) / 3)) + 1))',wrap='u32')
-hdr = "(* GENERATED by regen.py from %s -- do not edit *)\nFrom Coq Require Import NArith Bool.\nOpen Scope N_scope.\nDefinition u32 (x : N) : N := x mod 4294967296.\n\n" % REPO
+hdr = "(* GENERATED by regen.py from %s -- do not edit *)\nFrom Coq Require Import List NArith Bool.\nImport ListNotations.\nOpen Scope N_scope.\nDefinition u32 (x : N) : N := x mod 4294967296.\n\n" % REPO
 new = hdr + "\n".join(defs) + "\n"
 old = open(OUT).read() if os.path.exists(OUT) else None
 if new != old: open(OUT,'w').write(new)
